@@ -21,11 +21,12 @@
             start configuration on a boundary). *)
 From Coq Require Import ZArith List Bool Lia ZifyBool Arith PeanoNat.
 From Draco Require Import Model.CornerTable Model.EbEncoder Proofs.CornerTable_proofs Proofs.EbEncoder_proofs.
-From Draco Require Model.Edgebreaker Proofs.Edgebreaker_proofs Proofs.Edgebreaker_fan_proofs.
+From Draco Require Model.Edgebreaker Proofs.Edgebreaker_proofs Proofs.Edgebreaker_fan_proofs Proofs.Edgebreaker_oob_proofs Proofs.Edgebreaker_compact_proofs.
 Import ListNotations.
 Module D := Draco.Model.Edgebreaker.
 Module DP := Draco.Proofs.Edgebreaker_proofs.
 Module DF := Draco.Proofs.Edgebreaker_fan_proofs.
+Module DC := Draco.Proofs.Edgebreaker_compact_proofs.
 
 Local Open Scope Z_scope.
 Ltac dproj := cbn [D.c2v D.copp D.vc D.nv D.hole D.stack D.splits D.events D.invalid D.nfaces D.inits D.with_c2v D.with_opp D.with_vc
@@ -192,6 +193,40 @@ Proof.
   eexists. split; [reflexivity|]. repeat split; auto.
 Qed.
 
+Lemma dec_start_face : forall nfz s a, DP.W NC maxv (D.nfaces s) s -> NC = 3 * nfz -> D.nfaces s < nfz ->
+  0 <= a < 3 * D.nfaces s ->
+  let f := D.nfaces s in
+  let vn := D.c2v s (D.next_c a) in let ln := D.vc s vn in let b := D.next_c ln in
+  let vx := D.c2v s (D.next_c b) in let lx := D.vc s vx in let c := D.next_c lx in
+  0 <= ln < 3 * f -> 0 <= lx < 3 * f -> a <> b -> a <> c -> b <> c ->
+  D.copp s a = -1 -> D.copp s b = -1 -> D.copp s c = -1 ->
+  exists s', D.start_face NC maxv nfz s a = D.Ok s' /\
+    D.copp s' = D.upd (D.upd (D.upd (D.upd (D.upd (D.upd (D.copp s) (3 * f) a) a (3 * f)) (3 * f + 1) b) b (3 * f + 1)) (3 * f + 2) c) c (3 * f + 2) /\
+    D.c2v s' = D.upd (D.upd (D.upd (D.c2v s) (3 * f) vx) (3 * f + 1) (D.c2v s (D.next_c c))) (3 * f + 2) vn /\
+    D.nv s' = D.nv s /\ D.stack s' = D.stack s /\ D.vc s' = D.vc s /\
+    D.events s' = D.events s /\ D.splits s' = D.splits s /\ D.invalid s' = D.invalid s /\ D.nfaces s' = f + 1.
+Proof.
+  intros nfz s a HW HNC Hlt Ha f vn ln b vx lx c Hln Hlx Nab Nac Nbc Fa Fb Fc.
+  pose proof (DP.w_nf _ _ _ _ HW) as Hnf. pose proof (DP.w_nv _ _ _ _ HW) as Hnv. fold f in Hnf, Ha.
+  pose proof (DP.next_c_rng a f Ha) as Hna.
+  assert (Hb : 0 <= b < 3 * f) by (apply DP.next_c_rng; auto).
+  assert (Hc : 0 <= c < 3 * f) by (apply DP.next_c_rng; auto).
+  pose proof (DP.next_c_rng b f Hb) as Hnb. pose proof (DP.next_c_rng c f Hc) as Hnc.
+  pose proof (DP.w_vr _ _ _ _ HW _ Hna) as Hvn. fold vn in Hvn.
+  pose proof (DP.w_vr _ _ _ _ HW _ Hnb) as Hvx. fold vx in Hvx.
+  pose proof (DP.w_vr _ _ _ _ HW _ Hnc) as Hvp.
+  unfold D.start_face. fold f. replace (f >=? nfz) with false by lia.
+  unfold D.vertex, D.lmc. fwd. fold vn. fwd. fold ln. fold b. fwd. fold vx. fwd. fold lx. fold c.
+  replace ((a =? b) || (a =? c) || (b =? c)) with false by lia.
+  unfold D.all_free, D.opposite. fwd. rewrite Fa. cbn [Z.eqb D.bind]. fwd. rewrite Fb. cbn [Z.eqb D.bind]. fwd. rewrite Fc. cbn [Z.eqb D.bind negb].
+  fwd. unfold D.set_opps, D.set_opp, D.map_cv. fwd.
+  rewrite !(DP.upd_other _ _ _ _ (3 * f)) by lia. rewrite DP.upd_same.
+  unfold D.set_hole. fwd.
+  rewrite !(DP.upd_other _ _ _ _ (3 * f + 1)) by lia. rewrite DP.upd_same. fwd.
+  rewrite DP.upd_same. fwd.
+  eexists. split; [reflexivity|]. dproj. repeat split; reflexivity.
+Qed.
+
 End DecSteps.
 
 Lemma rot_face r q : rot r q / 3 = q / 3.
@@ -223,6 +258,13 @@ Proof.
   - cbn [app D.sym_loop D.bind length Z.of_nat]. f_equal. lia.
   - cbn [app D.sym_loop length]. destruct (D.step NC maxv rm ns s sid y); cbn [D.bind]; auto.
     rewrite IH. replace (sid + Z.of_nat (S (length l1)))%Z with (sid + 1 + Z.of_nat (length l1))%Z by lia. reflexivity.
+Qed.
+
+Lemma skipn_cons_tail {A} (l : list A) : forall i x R, x :: R = skipn i l -> R = skipn (S i) l.
+Proof.
+  induction l as [|a l IH]; intros [|i] x R E; cbn in E; try discriminate.
+  - inversion E; subst. reflexivity.
+  - apply IH in E. exact E.
 Qed.
 
 Lemma firstn_S_nth {A} (l : list A) k y : nth_error l k = Some y -> firstn (S k) l = firstn k l ++ [y].
@@ -609,6 +651,223 @@ Proof.
         change (eco (k - 1) 2) with (prev_c (eco (k - 1) 0)). rewrite E2. congruence.
 Qed.
 
+
+(** ** interior start faces.  [LAB]: the decoder's SwingLeft keeps the vertex (clause f_lab of the decoder's fan invariant FI;
+    it is carried separately because FI is not established for the start-face phase on arbitrary input) *)
+Definition LAB (k : nat) (d : D.st) : Prop :=
+  forall j r, (j < k)%nat -> (r < 3)%nat -> DP.slf d (dco j r) <> -1 -> D.c2v d (DP.slf d (dco j r)) = D.c2v d (dco j r).
+
+Lemma FI_LAB k d : DF.FI (Z.of_nat k) d -> LAB k d.
+Proof. intros HF j r Hj Hr. apply (DF.f_lab _ _ HF). unfold dco. lia. Qed.
+
+Lemma slf_dco d j r : (r < 3)%nat -> DP.slf d (dco j r) = D.next_c (D.copp d (dco j ((r + 1) mod 3))).
+Proof. intros Hr. rewrite DF.slf_at by (unfold dco; lia). rewrite dco_next by auto. reflexivity. Qed.
+
+Lemma sr_step_lab k d j r j' r' : (k <= length Q)%nat -> SIM k d -> LAB k d ->
+  (j < k)%nat -> (r < 3)%nat -> (j' < k)%nat -> (r' < 3)%nat -> swing_right opp (eco j r) = Some (eco j' r') ->
+  D.c2v d (dco j r) = D.c2v d (dco j' r').
+Proof.
+  intros Hk HS HL Hj Hr Hj' Hr' E. unfold swing_right in E. destruct (opp_at opp (prev_c (eco j r))) as [o|] eqn:Eo; [|discriminate].
+  inversion E as [E1]. clear E.
+  assert (Eoo : o = eco j' ((r' + 1) mod 3)) by (rewrite eco_next by auto; rewrite <- E1; symmetry; apply next_prev).
+  subst o. destruct (opp_facts _ _ Eo) as (Eo' & _).
+  assert (Hm2 : ((r + 2) mod 3 < 3)%nat) by (apply Nat.mod_upper_bound; lia).
+  assert (Hn2 : ((r' + 1) mod 3 < 3)%nat) by (apply Nat.mod_upper_bound; lia).
+  pose proof (s_opp _ _ HS j' ((r' + 1) mod 3)%nat Hj' Hn2) as X. unfold s_opp_at in X. rewrite Eo' in X. destruct X as [X _].
+  rewrite <- (eco_prev j r Hr) in X. specialize (X j ((r + 2) mod 3)%nat Hj Hm2 eq_refl).
+  assert (Esl : DP.slf d (dco j' r') = dco j r).
+  { rewrite slf_dco by auto. rewrite X. rewrite dco_next by auto.
+    replace (((r + 2) mod 3 + 1) mod 3)%nat with r by (destruct r as [|[|[|r]]]; cbn; lia). reflexivity. }
+  pose proof (HL j' r' Hj' Hr') as L. rewrite Esl in L. apply L. unfold dco. lia.
+Qed.
+
+(** corner [t] (of a face not among the first k): its vertex is interior and every other corner at it is created *)
+Definition Cint_t (k t : nat) : Prop :=
+  forall x, (x < 3 * nf)%nat -> is_degenerated c2v (x / 3) = false -> vtx c2v x = vtx c2v t ->
+    opp_at opp (next_c x) <> None /\ opp_at opp (prev_c x) <> None /\
+    (x <> t -> exists j' r', (j' < k)%nat /\ (r' < 3)%nat /\ x = eco j' r').
+
+(** the two neighbours of [t] around its vertex have the same decoder vertex: the created faces around the vertex form one fan *)
+Lemma fan_walk k d t : (k <= length Q)%nat -> SIM k d -> LAB k d ->
+  (t < 3 * nf)%nat -> is_degenerated c2v (t / 3) = false -> Cint_t k t ->
+  exists j1 r1 j2 r2, (j1 < k)%nat /\ (r1 < 3)%nat /\ (j2 < k)%nat /\ (r2 < 3)%nat /\
+    swing_right opp t = Some (eco j1 r1) /\ swing_left opp t = Some (eco j2 r2) /\ D.c2v d (dco j1 r1) = D.c2v d (dco j2 r2).
+Proof.
+  intros Hk HS HL Ht Dt CI.
+  set (v := vtx c2v t).
+  set (P := fun x => (x < 3 * nf)%nat /\ is_degenerated c2v (x / 3) = false /\ vtx c2v x = v).
+  assert (Pc : P t) by (repeat split; auto).
+  assert (Pf : forall a, P a -> exists b, swing_right opp a = Some b /\ P b).
+  { intros a (A1 & A2 & A3). destruct (CI a A1 A2 A3) as (_ & L0 & _). unfold swing_right.
+    destruct (opp_at opp (prev_c a)) as [o|] eqn:Eo; [|congruence]. exists (prev_c o). split; auto.
+    destruct (opp_facts _ _ Eo) as (_ & _ & Ho & _ & Do & _ & V1 & _). rewrite next_prev in V1.
+    split; [apply prev_lt; auto|]. split; [rewrite prev_face; auto|]. congruence. }
+  assert (Pg : forall a, P a -> exists b, swing_left opp a = Some b /\ P b).
+  { intros a (A1 & A2 & A3). destruct (CI a A1 A2 A3) as (R0 & _ & _). unfold swing_left.
+    destruct (opp_at opp (next_c a)) as [o|] eqn:Eo; [|congruence]. exists (next_c o). split; auto.
+    destruct (opp_facts _ _ Eo) as (_ & _ & Ho & _ & Do & _ & _ & V2). rewrite prev_next in V2.
+    split; [apply next_lt; auto|]. split; [rewrite next_face; auto|]. congruence. }
+  destruct (cyc_period (swing_right opp) (swing_left opp) (3 * nf) P (sr_sl c2v opp nf Hlen OK) (sl_sr c2v opp nf Hlen OK)) with (a := t)
+    as (p & Hp & Ep); auto.
+  { intros a b E. unfold swing_right in E. destruct (opp_at opp (prev_c a)) as [o|] eqn:Eo; [|discriminate]. inversion E; subst b.
+    destruct (opp_facts _ _ Eo) as (_ & _ & Ho & _). apply prev_lt; auto. }
+  { intros a (A & _). auto. }
+  destruct (first_return _ t p Hp Ep) as (p0 & Hp0 & Ep0 & Min).
+  destruct (Pf t Pc) as (e1 & S1 & (B1 & B2 & B3)).
+  assert (Ne0 : e1 <> t).
+  { intro X. subst e1. unfold swing_right in S1. destruct (opp_at opp (prev_c t)) as [o|] eqn:Eo; [|discriminate]. inversion S1 as [S2].
+    destruct (opp_facts _ _ Eo) as (_ & _ & _ & _ & _ & Nf & _). apply Nf. rewrite prev_face, <- S2, prev_face. auto. }
+  destruct (CI _ B1 B2 B3) as (_ & _ & Cr). destruct (Cr Ne0) as (jb & rb & Hjb & Hrb & Eb).
+  assert (Walk : forall q, (1 <= q < p0)%nat -> exists j r, (j < k)%nat /\ (r < 3)%nat /\
+             oiter (swing_right opp) q (Some t) = Some (eco j r) /\ D.c2v d (dco j r) = D.c2v d (dco jb rb)).
+  { induction q as [|q IHq]; intros Hq; [lia|]. destruct (Nat.eq_dec q 0) as [->|Nq].
+    - exists jb, rb. repeat split; auto. cbn [oiter]. rewrite S1, Eb. auto.
+    - destruct (IHq ltac:(lia)) as (j & r & Hj & Hr & Eq & Vq).
+      destruct (cyc_all (swing_right opp) P Pf t (S q) Pc) as (y & Ey & (Y1 & Y2 & Y3)).
+      assert (Ny : y <> t). { intro X. subst y. apply (Min (S q)); auto. }
+      destruct (CI y Y1 Y2 Y3) as (_ & _ & Cy). destruct (Cy Ny) as (j2 & r2 & Hj2 & Hr2 & ->).
+      exists j2, r2. repeat split; auto. rewrite <- Vq. symmetry.
+      apply (sr_step_lab k d j r j2 r2); auto. cbn [oiter] in Ey. rewrite Eq in Ey. auto. }
+  assert (Hp2 : (2 <= p0)%nat).
+  { destruct (Nat.eq_dec p0 1) as [->|]; [|lia]. exfalso. cbn [oiter] in Ep0. rewrite S1 in Ep0. inversion Ep0. auto. }
+  destruct (Walk (p0 - 1)%nat ltac:(lia)) as (j & r & Hj & Hr & Eq & Vq).
+  assert (Ely : swing_right opp (eco j r) = Some t).
+  { replace p0 with (S (p0 - 1)) in Ep0 by lia. cbn [oiter] in Ep0. rewrite Eq in Ep0. auto. }
+  apply (sr_sl c2v opp nf Hlen OK) in Ely.
+  exists jb, rb, j, r. repeat split; auto. congruence.
+Qed.
+
+Lemma dead_end_FJ d f c : DC.FJ f d -> 0 <= c < 3 * f -> DP.slf d c = -1 -> D.vc d (D.c2v d c) = c.
+Proof.
+  intros HJ Hc Dd. destruct (DC.j_reach _ _ HJ c Hc) as (N & (k & R)).
+  destruct k; [cbn in R; congruence|]. rewrite DF.iter_succ_r, Dd, DF.iter_dead in R. congruence.
+Qed.
+
+(** the lookup of the decoder's start-face phase: tip [t] (a corner of the start face Q[k]) with the glued corner
+    (ja, ra) = Opposite(Next(t)): LeftMostCorner(Vertex(Next(glued corner))) is Previous(Opposite(Previous(t))) *)
+Lemma fan_lmc_t k d t ja ra : (k < length Q)%nat -> SIM k d -> LAB k d -> DC.FJ (Z.of_nat k) d ->
+  (t / 3 = nth k Q 0%nat / 3)%nat -> (t < 3 * nf)%nat -> Cint_t k t ->
+  (ja < k)%nat -> (ra < 3)%nat -> opp_at opp (next_c t) = Some (eco ja ra) ->
+  exists jb rb, (jb < k)%nat /\ (rb < 3)%nat /\ opp_at opp (prev_c t) = Some (eco jb ((rb + 1) mod 3)) /\
+                D.vc d (D.c2v d (dco ja ((ra + 1) mod 3))) = dco jb rb.
+Proof.
+  intros Hk HS HL HJ Ft Ht CI Hja Hra Er.
+  assert (Dt : is_degenerated c2v (t / 3) = false) by (rewrite Ft; apply (Qrng k Hk)).
+  destruct (fan_walk k d t ltac:(lia) HS HL Ht Dt CI) as (j1 & r1 & j2 & r2 & H1 & H2 & H3 & H4 & Esr & Esl & Ev).
+  unfold swing_left in Esl. rewrite Er in Esl. inversion Esl as [E2]. rewrite <- eco_next in E2 by auto.
+  apply eco_inj in E2; try lia. destruct E2 as [<- <-].
+  unfold swing_right in Esr. destruct (opp_at opp (prev_c t)) as [lc|] eqn:El; [|discriminate]. inversion Esr as [E1].
+  destruct (opp_facts _ _ El) as (El' & _).
+  exists j1, r1. split; auto. split; auto. split.
+  - f_equal. rewrite eco_next by auto. rewrite <- E1. symmetry. apply next_prev.
+  - rewrite <- Ev. apply (dead_end_FJ d (Z.of_nat k)); auto. unfold dco; lia.
+    rewrite slf_dco by auto.
+    assert (Hm : ((r1 + 1) mod 3 < 3)%nat) by (apply Nat.mod_upper_bound; lia).
+    pose proof (s_opp _ _ HS j1 ((r1 + 1) mod 3)%nat H1 Hm) as X. unfold s_opp_at in X.
+    rewrite eco_next, <- E1, next_prev, El' in X by auto. destruct X as [_ X]. rewrite X. reflexivity.
+    intros j' Hj' F. rewrite prev_face, Ft in F. apply Q_face_inj in F; lia.
+Qed.
+
+(** the start face Q[k] glued to the three created corners a = (ja,0), b = (jb,rb), c = (jc,rc) *)
+Lemma SIM_start k d d' ja jb rb jc rc : (k < length Q)%nat -> (ja < k)%nat -> (jb < k)%nat -> (rb < 3)%nat -> (jc < k)%nat -> (rc < 3)%nat ->
+  SIM k d -> DP.W NC maxv (Z.of_nat k) d ->
+  let a := dco ja 0 in let b := dco jb rb in let c := dco jc rc in
+  D.copp d' = D.upd (D.upd (D.upd (D.upd (D.upd (D.upd (D.copp d) (dco k 0) a) a (dco k 0)) (dco k 1) b) b (dco k 1)) (dco k 2) c) c (dco k 2) ->
+  D.c2v d' = D.upd (D.upd (D.upd (D.c2v d) (dco k 0) (D.c2v d (D.next_c b))) (dco k 1) (D.c2v d (D.next_c c))) (dco k 2) (D.c2v d (D.next_c a)) ->
+  D.nfaces d' = Z.of_nat (S k) ->
+  opp_at opp (eco k 0) = Some (eco ja 0) -> opp_at opp (eco k 1) = Some (eco jb rb) -> opp_at opp (eco k 2) = Some (eco jc rc) ->
+  SIM (S k) d'.
+Proof.
+  intros Hk Hja Hjb Hrb Hjc Hrc [S1 S2 S3] HW a b c Eo Ev En E0 E1 E2.
+  destruct (opp_facts _ _ E0) as (_ & _ & _ & _ & _ & _ & _ & V0).
+  destruct (opp_facts _ _ E1) as (_ & _ & _ & _ & _ & _ & _ & V1).
+  destruct (opp_facts _ _ E2) as (_ & _ & _ & _ & _ & _ & _ & V2).
+  assert (X1 : eco k 1 = next_c (eco k 0)) by reflexivity. assert (X2 : eco k 2 = prev_c (eco k 0)) by reflexivity.
+  rewrite X1 in V1. rewrite X2 in V2. rewrite prev_next in V1. rewrite prev_prev in V2.
+  assert (F01 : (eco ja 0 / 3)%nat <> (eco jb rb / 3)%nat) by (apply (nbr_next_distinct c2v opp nf Hlen OK (eco k 0)); auto).
+  assert (F12 : (eco jb rb / 3)%nat <> (eco jc rc / 3)%nat).
+  { apply (nbr_next_distinct c2v opp nf Hlen OK (next_c (eco k 0))); auto. rewrite next_next. auto. }
+  assert (F20 : (eco jc rc / 3)%nat <> (eco ja 0 / 3)%nat).
+  { apply (nbr_next_distinct c2v opp nf Hlen OK (prev_c (eco k 0))); auto. rewrite next_prev. auto. }
+  rewrite !eco_face in F01, F12, F20.
+  assert (Nj1 : ja <> jb) by congruence. assert (Nj2 : jb <> jc) by congruence. assert (Nj3 : jc <> ja) by congruence.
+  constructor; auto.
+  - apply (opp_step k d d' (fun r => match r with 0%nat => Some (ja, 0%nat) | 1%nat => Some (jb, rb) | 2%nat => Some (jc, rc) | _ => None end)); auto.
+    + intros rn jo r0 Hrn Eg. destruct rn as [|[|[|rn]]]; try discriminate; inversion Eg; subst jo r0.
+      * split; [lia|]. split; [lia|]. split; auto. rewrite Eo. unfold a, b, c, dco in *. split; upd_eval.
+      * split; [lia|]. split; [lia|]. split; auto. rewrite Eo. unfold a, b, c, dco in *. split; upd_eval.
+      * split; [lia|]. split; [lia|]. split; auto. rewrite Eo. unfold a, b, c, dco in *. split; upd_eval.
+    + intros r Hr Eg. destruct r as [|[|[|r]]]; try discriminate; lia.
+    + intros j r Hj Hr Ng. rewrite Eo. unfold a, b, c, dco in *. upd_eval.
+      * exfalso. apply (Ng 2%nat); [lia|]. f_equal. f_equal; lia.
+      * exfalso. apply (Ng 1%nat); [lia|]. f_equal. f_equal; lia.
+      * exfalso. apply (Ng 0%nat); [lia|]. f_equal. f_equal; lia.
+  - apply (vtx_step k d d'); auto.
+    + intros j r Hj Hr. apply (DP.w_vr _ _ _ _ HW). unfold dco. lia.
+    + intros j r Hj Hr. rewrite Ev. unfold dco. upd_eval; auto.
+    + intros r Hr. left. rewrite Ev. unfold a, b, c. rewrite (dco_next ja 0), (dco_next jb rb), (dco_next jc rc) by lia.
+      cbn [Nat.modulo Nat.divmod Nat.add fst snd Nat.sub].
+      destruct r as [|[|[|r]]]; try lia.
+      * exists jb, ((rb + 1) mod 3)%nat. split; [lia|]. split; [apply Nat.mod_upper_bound; lia|]. split; [unfold dco; upd_eval; auto|].
+        rewrite eco_next by auto. congruence.
+      * exists jc, ((rc + 1) mod 3)%nat. split; [lia|]. split; [apply Nat.mod_upper_bound; lia|]. split; [unfold dco; upd_eval; auto|].
+        rewrite eco_next by auto. rewrite X1. congruence.
+      * exists ja, 1%nat. split; [lia|]. split; [lia|]. split; [unfold dco; upd_eval; auto|].
+        change (eco ja 1) with (next_c (eco ja 0)). rewrite X2. congruence.
+Qed.
+
+
+Lemma prev_next_dco j r : D.prev_c (D.next_c (dco j r)) = dco j r.
+Proof. apply (DP.next_c_spec (dco j r)). unfold dco; lia. Qed.
+
+Lemma LAB_start k d d' ja jb rb jc rc : (k < length Q)%nat -> (ja < k)%nat -> (jb < k)%nat -> (rb < 3)%nat -> (jc < k)%nat -> (rc < 3)%nat ->
+  DP.W NC maxv (Z.of_nat k) d -> LAB k d ->
+  let a := dco ja 0 in let b := dco jb rb in let c := dco jc rc in
+  D.copp d' = D.upd (D.upd (D.upd (D.upd (D.upd (D.upd (D.copp d) (dco k 0) a) a (dco k 0)) (dco k 1) b) b (dco k 1)) (dco k 2) c) c (dco k 2) ->
+  D.c2v d' = D.upd (D.upd (D.upd (D.c2v d) (dco k 0) (D.c2v d (D.next_c b))) (dco k 1) (D.c2v d (D.next_c c))) (dco k 2) (D.c2v d (D.next_c a)) ->
+  ja <> jb -> jb <> jc -> jc <> ja ->
+  D.c2v d (D.prev_c a) = D.c2v d (D.next_c c) -> D.c2v d (D.prev_c b) = D.c2v d (D.next_c a) -> D.c2v d (D.prev_c c) = D.c2v d (D.next_c b) ->
+  LAB (S k) d'.
+Proof.
+  intros Hk Hja Hjb Hrb Hjc Hrc HW HL a b c Eo Ev N1 N2 N3 E1 E2 E3 j r Hj Hr.
+  assert (Old : forall x, 0 <= x < 3 * Z.of_nat k -> D.c2v d' x = D.c2v d x) by (intros x Hx; rewrite Ev; unfold dco; upd_eval; auto).
+  assert (Hm : ((r + 1) mod 3 < 3)%nat) by (apply Nat.mod_upper_bound; lia).
+  rewrite slf_dco by auto.
+  assert (Hna : 0 <= D.next_c a < 3 * Z.of_nat k) by (apply DP.next_c_rng; unfold a, dco; lia).
+  assert (Hnb : 0 <= D.next_c b < 3 * Z.of_nat k) by (apply DP.next_c_rng; unfold b, dco; lia).
+  assert (Hnc : 0 <= D.next_c c < 3 * Z.of_nat k) by (apply DP.next_c_rng; unfold c, dco; lia).
+  destruct (Nat.eq_dec j k) as [->|Nj].
+  - (* a corner of the new face *)
+    destruct r as [|[|[|r]]]; try lia; cbn [Nat.modulo Nat.divmod Nat.add fst snd Nat.sub]; intros _.
+    + replace (D.copp d' (dco k 1)) with b by (rewrite Eo; unfold a, b, c, dco; upd_eval). rewrite (Old _ Hnb).
+      rewrite Ev. unfold dco. upd_eval; auto.
+    + replace (D.copp d' (dco k 2)) with c by (rewrite Eo; unfold a, b, c, dco; upd_eval). rewrite (Old _ Hnc).
+      rewrite Ev. unfold dco. upd_eval; auto.
+    + replace (D.copp d' (dco k 0)) with a by (rewrite Eo; unfold a, b, c, dco; upd_eval). rewrite (Old _ Hna).
+      rewrite Ev. unfold dco. upd_eval; auto.
+  - assert (Hjk : (j < k)%nat) by lia.
+    assert (Hx : 0 <= dco j r < 3 * Z.of_nat k) by (unfold dco; lia).
+    rewrite (Old _ Hx).
+    destruct (Z.eq_dec (dco j ((r + 1) mod 3)) a) as [Xa|Na]; [|destruct (Z.eq_dec (dco j ((r + 1) mod 3)) b) as [Xb|Nb];
+      [|destruct (Z.eq_dec (dco j ((r + 1) mod 3)) c) as [Xc|Nc]]].
+    + intros _. rewrite Xa. replace (D.copp d' a) with (dco k 0) by (rewrite Eo; unfold a, b, c, dco in *; upd_eval).
+      rewrite (dco_next k 0) by lia. cbn [Nat.modulo Nat.divmod Nat.add fst snd Nat.sub].
+      replace (D.c2v d' (dco k 1)) with (D.c2v d (D.next_c c)) by (rewrite Ev; unfold dco; upd_eval; auto).
+      rewrite <- E1. rewrite <- Xa. rewrite <- (dco_next j r) by auto. rewrite prev_next_dco. reflexivity.
+    + intros _. rewrite Xb. replace (D.copp d' b) with (dco k 1) by (rewrite Eo; unfold a, b, c, dco in *; upd_eval).
+      rewrite (dco_next k 1) by lia. cbn [Nat.modulo Nat.divmod Nat.add fst snd Nat.sub].
+      replace (D.c2v d' (dco k 2)) with (D.c2v d (D.next_c a)) by (rewrite Ev; unfold dco; upd_eval; auto).
+      rewrite <- E2. rewrite <- Xb. rewrite <- (dco_next j r) by auto. rewrite prev_next_dco. reflexivity.
+    + intros _. rewrite Xc. replace (D.copp d' c) with (dco k 2) by (rewrite Eo; unfold a, b, c, dco in *; upd_eval).
+      rewrite (dco_next k 2) by lia. cbn [Nat.modulo Nat.divmod Nat.add fst snd Nat.sub].
+      replace (D.c2v d' (dco k 0)) with (D.c2v d (D.next_c b)) by (rewrite Ev; unfold dco; upd_eval; auto).
+      rewrite <- E3. rewrite <- Xc. rewrite <- (dco_next j r) by auto. rewrite prev_next_dco. reflexivity.
+    + replace (D.copp d' (dco j ((r + 1) mod 3))) with (D.copp d (dco j ((r + 1) mod 3))) by (rewrite Eo; unfold a, b, c, dco in *; upd_eval; auto).
+      rewrite <- slf_dco by auto. intros Hs.
+      destruct (DF.slf_created NC maxv d (Z.of_nat k) (dco j r) HW Hx) as [X|X]; [congruence|].
+      rewrite (Old _ X). apply HL; auto.
+Qed.
+
 (** ** the end: [SIM] for all faces gives [eb_iso] *)
 Section SimEnd.
 Hypothesis Complete : forall f, (f < nf)%nat -> is_degenerated c2v f = false -> In f (map (fun c => (c / 3)%nat) Q).
@@ -624,7 +883,7 @@ Proof.
 Qed.
 
 (** SwingRight in the encoder's table = the decoder's SwingLeft backwards: the decoder vertex is the same *)
-Lemma sr_step d j r b : SIM (length Q) d -> DF.FI (Z.of_nat (length Q)) d ->
+Lemma sr_step d j r b : SIM (length Q) d -> LAB (length Q) d ->
   (j < length Q)%nat -> (r < 3)%nat -> swing_right opp (eco j r) = Some b ->
   exists j' r', (j' < length Q)%nat /\ (r' < 3)%nat /\ b = eco j' r' /\ D.c2v d (dco j r) = D.c2v d (dco j' r').
 Proof.
@@ -645,10 +904,10 @@ Proof.
     replace (((r2 + 2) mod 3 + 1) mod 3)%nat with r2 by (destruct r2 as [|[|[|r2]]]; cbn; lia).
     rewrite X. rewrite dco_next by auto.
     replace (((r + 2) mod 3 + 1) mod 3)%nat with r by (destruct r as [|[|[|r]]]; cbn; lia). reflexivity. }
-  pose proof (DF.f_lab _ _ HF c Hc) as L. rewrite Esl in L. apply L. unfold dco. lia.
+  pose proof (HF j' ((r2 + 2) mod 3)%nat Hj' Hn2) as L. fold c in L. rewrite Esl in L. apply L. unfold dco. lia.
 Qed.
 
-Lemma sr_reach d : SIM (length Q) d -> DF.FI (Z.of_nat (length Q)) d -> forall n j r b,
+Lemma sr_reach d : SIM (length Q) d -> LAB (length Q) d -> forall n j r b,
   (j < length Q)%nat -> (r < 3)%nat -> oiter (swing_right opp) n (Some (eco j r)) = Some b ->
   exists j' r', (j' < length Q)%nat /\ (r' < 3)%nat /\ b = eco j' r' /\ D.c2v d (dco j r) = D.c2v d (dco j' r').
 Proof.
@@ -661,7 +920,7 @@ Proof.
 Qed.
 
 (** the final table is the encoder's table up to [eb_iso] *)
-Lemma sim_iso d : SIM (length Q) d -> DF.FI (Z.of_nat (length Q)) d -> eb_iso c2v opp Q (D.c2v d) (D.copp d).
+Lemma sim_iso_lab d : SIM (length Q) d -> LAB (length Q) d -> eb_iso c2v opp Q (D.c2v d) (D.copp d).
 Proof.
   intros HS HF. unfold eb_iso.
   assert (Dec : forall dd, (dd < 3 * length Q)%nat ->
@@ -694,6 +953,9 @@ Proof.
         apply eco_inj in E; auto. destruct E as [<- <-]. auto.
 Qed.
 
+Lemma sim_iso d : SIM (length Q) d -> DF.FI (Z.of_nat (length Q)) d -> eb_iso c2v opp Q (D.c2v d) (D.copp d).
+Proof. intros HS HF. apply sim_iso_lab; auto. apply FI_LAB; auto. Qed.
+
 End SimEnd.
 
 (** ** the symbol loop of the decoder along the script (classes without S and without split events) *)
@@ -702,6 +964,23 @@ Variable Y : list Z.     (* the symbols in DECODER order *)
 Hypothesis HNC : NC = 3 * Z.of_nat (length Q).
 Hypothesis HYQ : (length Y <= length Q)%nat.
 Hypothesis Hmaxv : cntv Y <= maxv.
+
+(** the decoder's active corner stack after [k] symbols, as indices of faces (entry j = corner 3j), top first:
+    E pushes, C / R / L replace the top, S (without split event) merges the two top entries *)
+Fixpoint tops (k : nat) : list nat :=
+  match k with
+  | O => []
+  | S k' => match nth_error Y k' with
+            | Some y => if y =? 7 then k' :: tops k' else if y =? 1 then k' :: tl (tl (tops k')) else k' :: tl (tops k')
+            | None => tops k'
+            end
+  end.
+Lemma tops_head k : (1 <= k <= length Y)%nat -> exists T, tops k = (k - 1)%nat :: T.
+Proof.
+  intros Hk. destruct k as [|k']; [lia|]. cbn [tops]. destruct (nth_error Y k') as [y|] eqn:E.
+  - replace (S k' - 1)%nat with k' by lia. destruct (y =? 7); [eauto|]. destruct (y =? 1); eauto.
+  - apply nth_error_None in E. lia.
+Qed.
 
 (** what the encoder guarantees about its [k]-th last symbol (corner [Q[k]]) *)
 Definition script_at (k : nat) : Prop :=
@@ -717,14 +996,16 @@ Definition script_at (k : nat) : Prop :=
 Lemma sym_loop_sim : forall k, (k <= length Y)%nat -> (forall j, (j < k)%nat -> script_at j) ->
   exists d, D.sym_loop NC maxv rm (Z.of_nat (length Y)) (firstn k Y) 0 (D.init_st []) = D.Ok d /\
     SIM k d /\ DP.W NC maxv (Z.of_nat k) d /\ DF.FI (Z.of_nat k) d /\ D.nv d = cntv (firstn k Y) /\ D.events d = [] /\
-    D.invalid d = [] /\ (forall k', k = S k' -> exists rest, D.stack d = dco k' 0 :: rest).
+    D.invalid d = [] /\ D.stack d = map (fun j => dco j 0) (tops k).
 Proof.
   pose proof (cntv_nonneg Y) as Hc0.
   induction k as [|k IH]; intros Hk Sc.
   - exists (D.init_st []). cbn [firstn D.sym_loop]. split; [reflexivity|]. split.
     { constructor; cbn; intros; lia. }
-    split; [apply DP.W_init; lia|]. split; [apply DF.FI_init|]. cbn. repeat split; auto. intros; lia.
-  - destruct (IH ltac:(lia) ltac:(intros; apply Sc; lia)) as (d & E & HS & HW & HF & Hnv & Hev & Hinv & Hst).
+    split; [apply DP.W_init; lia|]. split; [apply DF.FI_init|]. cbn. repeat split; auto.
+  - destruct (IH ltac:(lia) ltac:(intros; apply Sc; lia)) as (d & E & HS & HW & HF & Hnv & Hev & Hinv & Hst0).
+    assert (Hst : forall k', k = S k' -> exists rest, D.stack d = dco k' 0 :: rest /\ rest = map (fun j => dco j 0) (tl (tops k))).
+    { intros k' Ek. destruct (tops_head k ltac:(lia)) as (T & ET). rewrite Hst0, ET. cbn [map tl]. replace (k - 1)%nat with k' by lia. eauto. }
     specialize (Sc k ltac:(lia)). unfold script_at in Sc. destruct (nth_error Y k) as [y|] eqn:Ey; [|contradiction].
     rewrite (firstn_S_nth _ _ _ Ey), sym_loop_app, E. cbn [D.bind D.sym_loop]. rewrite firstn_length_le by lia.
     pose proof (s_nf _ _ HS) as Hnf.
@@ -735,17 +1016,17 @@ Proof.
     pose proof (cntv_firstn Y (S k)) as Hc1. rewrite (firstn_S_nth _ _ _ Ey), cntv_app in Hc1. cbn [cntv] in Hc1.
     assert (Fin : forall d', D.step NC maxv rm (Z.of_nat (length Y)) d (0 + Z.of_nat k) y = D.Ok d' ->
               SIM (S k) d' -> D.nv d' = D.nv d + cntv1 y -> D.events d' = [] -> D.invalid d' = [] ->
-              D.stack d' <> [] -> (forall rest, D.stack d' = rest -> exists rest', rest = dco k 0 :: rest') ->
+              D.stack d' <> [] -> D.stack d' = map (fun j => dco j 0) (tops (S k)) ->
               exists d0, D.bind (D.step NC maxv rm (Z.of_nat (length Y)) d (0 + Z.of_nat k) y) (fun s => D.Ok s) = D.Ok d0 /\
                 SIM (S k) d0 /\ DP.W NC maxv (Z.of_nat (S k)) d0 /\ DF.FI (Z.of_nat (S k)) d0 /\
                 D.nv d0 = cntv (firstn k Y ++ [y]) /\ D.events d0 = [] /\ D.invalid d0 = [] /\
-                (forall k', S k = S k' -> exists rest, D.stack d0 = dco k' 0 :: rest)).
+                D.stack d0 = map (fun j => dco j 0) (tops (S k))).
     { intros d' Es S' Nv' Ev' In' _ St'. exists d'. rewrite Es. cbn [D.bind]. split; [reflexivity|]. split; [auto|].
       destruct (DP.step_W _ _ _ _ _ _ _ _ HW' HN Es) as (W' & Nf' & _).
       pose proof (DF.step_FI _ _ _ _ _ _ _ _ HW' HF' HN Es) as F'.
       assert (Enf : D.nfaces d' = Z.of_nat (S k)) by lia. rewrite Enf in W', F'.
       split; [auto|]. split; [auto|]. split; [rewrite cntv_app; cbn [cntv]; lia|]. split; [auto|]. split; [auto|].
-      intros k' Ek. inversion Ek; subst k'. apply St'. auto. }
+      exact St'. }
     destruct Sc as [(-> & N0 & N1 & N2)|[(-> & K1 & Eo & N0 & N1)|[(-> & K1 & Eo & N0 & N2)|(-> & K1 & Eo & N0 & CI)]]].
     + (* E *)
       destruct (dec_step_E_full NC maxv rm d (0 + Z.of_nat k) (Z.of_nat (length Y)) HW' HN ltac:(unfold cntv1 in Hc1; cbn in Hc1; lia) Hev)
@@ -753,9 +1034,9 @@ Proof.
       apply (Fin d' Es); [ | rewrite A3; reflexivity | exact A5 | congruence | rewrite A4; discriminate | ].
       * apply (SIM_E k d d'); auto; try (rewrite ?A2, ?Hnf; auto; lia).
         intros r Hr. destruct r as [|[|[|r]]]; auto; lia.
-      * intros rest Er. rewrite A4 in Er. subst rest. eexists. unfold dco. f_equal. lia.
+      * rewrite A4, Hst0. cbn [tops]. rewrite Ey. cbn [Z.eqb Pos.eqb map]. f_equal. unfold dco. rewrite Hnf. lia.
     + (* R *)
-      destruct (Hst (k - 1)%nat ltac:(lia)) as (rest & Est).
+      destruct (Hst (k - 1)%nat ltac:(lia)) as (rest & Est & Erest).
       assert (Fa : D.copp d (dco (k - 1) 0) = -1).
       { pose proof (s_opp _ _ HS (k - 1)%nat 0%nat ltac:(lia) ltac:(lia)) as X. unfold s_opp_at in X.
         destruct (opp_facts _ _ Eo) as (Eo' & _). rewrite Eo' in X. destruct X as [_ X]. apply X.
@@ -769,9 +1050,9 @@ Proof.
            replace (dco k 2) with (3 * Z.of_nat k + 2) by (unfold dco; lia).
            replace (dco k 1) with (3 * Z.of_nat k + 1) by (unfold dco; lia).
            replace (dco k 0) with (3 * Z.of_nat k) by (unfold dco; lia). reflexivity.
-      * intros rest' Er. rewrite A4 in Er. subst rest'. eexists. unfold dco. f_equal. lia.
+      * rewrite A4, Erest. cbn [tops]. rewrite Ey. cbn [Z.eqb Pos.eqb map]. f_equal. unfold dco. rewrite Hnf. lia.
     + (* L *)
-      destruct (Hst (k - 1)%nat ltac:(lia)) as (rest & Est).
+      destruct (Hst (k - 1)%nat ltac:(lia)) as (rest & Est & Erest).
       assert (Fa : D.copp d (dco (k - 1) 0) = -1).
       { pose proof (s_opp _ _ HS (k - 1)%nat 0%nat ltac:(lia) ltac:(lia)) as X. unfold s_opp_at in X.
         destruct (opp_facts _ _ Eo) as (Eo' & _). rewrite Eo' in X. destruct X as [_ X]. apply X.
@@ -785,9 +1066,9 @@ Proof.
            replace (dco k 2) with (3 * Z.of_nat k + 2) by (unfold dco; lia).
            replace (dco k 1) with (3 * Z.of_nat k + 1) by (unfold dco; lia).
            replace (dco k 0) with (3 * Z.of_nat k) by (unfold dco; lia). reflexivity.
-      * intros rest' Er. rewrite A4 in Er. subst rest'. eexists. unfold dco. f_equal. lia.
+      * rewrite A4, Erest. cbn [tops]. rewrite Ey. cbn [Z.eqb Pos.eqb map]. f_equal. unfold dco. rewrite Hnf. lia.
     + (* C *)
-      destruct (Hst (k - 1)%nat ltac:(lia)) as (rest & Est).
+      destruct (Hst (k - 1)%nat ltac:(lia)) as (rest & Est & Erest).
       destruct (fan_lmc k d K1 Hkq HS HW HF Eo CI) as (jb & rb & Hjb & Hrb & El & Evc).
       set (rl := ((rb + 1) mod 3)%nat) in *.
       assert (Hrl : (rl < 3)%nat) by (apply Nat.mod_upper_bound; lia).
@@ -831,7 +1112,7 @@ Proof.
               replace (dco k 1) with (3 * Z.of_nat k + 1) by (unfold dco; lia).
               replace (dco k 2) with (3 * Z.of_nat k + 2) by (unfold dco; lia).
               replace (dco k 0) with (3 * Z.of_nat k) by (unfold dco; lia). reflexivity.
-        -- intros rest' Er. rewrite A4 in Er. subst rest'. eexists. unfold dco. f_equal. lia.
+        -- rewrite A4, Erest. cbn [tops]. rewrite Ey. cbn [Z.eqb Pos.eqb map]. f_equal. unfold dco. rewrite Hnf. lia.
 Qed.
 
 (** ** the start-face phase when every start configuration is a boundary one, and the compaction without S *)
@@ -842,6 +1123,185 @@ Proof.
   intros Hb. induction stk as [|a r IH]; intros k s; cbn [D.start_loop].
   - eexists. split; [reflexivity|]. cbn. repeat split; auto.
   - rewrite Hb. destruct (IH (S k) (D.with_inits s ((false, a) :: D.inits s))) as (s' & E & A). exists s'. split; auto.
+Qed.
+
+
+(** ** the start-face phase with interior start faces *)
+Definition cnt_true (B : list bool) : nat := count_occ bool_dec B true.
+Lemma cnt_true_firstn_S B i : (i < length B)%nat ->
+  cnt_true (firstn (S i) B) = (cnt_true (firstn i B) + if nth i B false then 1 else 0)%nat.
+Proof.
+  revert i. induction B as [|b B IH]; intros i Hi; cbn [length] in Hi; [lia|]. destruct i as [|i].
+  - cbn. destruct b; cbn; auto.
+  - specialize (IH i ltac:(lia)). unfold cnt_true in *. cbn [nth].
+    change (firstn (S (S i)) (b :: B)) with (b :: firstn (S i) B). change (firstn (S i) (b :: B)) with (b :: firstn i B).
+    destruct b.
+    + rewrite !count_occ_cons_eq by reflexivity. lia.
+    + rewrite !count_occ_cons_neq by discriminate. lia.
+Qed.
+Lemma cnt_true_le B i : (cnt_true (firstn i B) <= cnt_true B)%nat.
+Proof.
+  unfold cnt_true. rewrite <- (firstn_skipn i B) at 2. rewrite count_occ_app. lia.
+Qed.
+
+(** what the encoder guarantees about its runs: the decoder's stack after the symbol loop lists the first corners of the runs
+    in encoding order (top first), one per start-face bit; an interior start configuration [i] comes with the start face
+    Q[ns + (number of interior configurations before i)], glued to the run's first corner, its three vertices interior
+    with all other faces around them created *)
+Definition start_ok (B : list bool) : Prop :=
+  let ns := length Y in
+  length (tops ns) = length B /\ (ns + cnt_true B = length Q)%nat /\
+  forall i j, nth_error (tops ns) i = Some j -> nth i B false = true ->
+    let m := (ns + cnt_true (firstn i B))%nat in
+    opp_at opp (eco m 0) = Some (eco j 0) /\ Cint_t m (eco m 0) /\ Cint_t m (eco m 1) /\ Cint_t m (eco m 2).
+
+Lemma tops_lt k : forall j, In j (tops k) -> (j < k)%nat.
+Proof.
+  induction k as [|k IH]; cbn [tops]; intros j Hj; [contradiction|].
+  assert (T1 : forall l : list nat, In j (tl l) -> In j l) by (intros [|x l]; cbn; auto).
+  destruct (nth_error Y k) as [y|]; [|apply IH in Hj; lia].
+  destruct (y =? 7); [|destruct (y =? 1)]; destruct Hj as [<-|Hj]; try lia.
+  - apply IH in Hj. lia.
+  - apply T1, T1, IH in Hj. lia.
+  - apply T1, IH in Hj. lia.
+Qed.
+
+Lemma start_loop_sim B : start_ok B -> NC = 3 * Z.of_nat (length Q) ->
+  forall RS' i d, RS' = skipn i (tops (length Y)) ->
+  let m := (length Y + cnt_true (firstn i B))%nat in
+  SIM m d -> DP.W NC maxv (Z.of_nat m) d -> DC.FJ (Z.of_nat m) d -> LAB m d -> D.invalid d = [] ->
+  exists d', D.start_loop NC maxv (Z.of_nat (length Q)) (D.bits_of_list B) i (map (fun j => dco j 0) RS') d = D.Ok d' /\
+    SIM (length Q) d' /\ LAB (length Q) d' /\ D.invalid d' = [].
+Proof.
+  intros (SL & ST & SF) HNC'. set (ns := length Y) in *.
+  induction RS' as [|j R IH]; intros i d ERS m HS HW HJ HL Hinv.
+  - cbn [map D.start_loop]. eexists. split; [reflexivity|].
+    assert (Hi : (length B <= i)%nat).
+    { assert (L : length (skipn i (tops ns)) = 0%nat) by (rewrite <- ERS; reflexivity). rewrite skipn_length in L. lia. }
+    assert (Em : m = length Q). { unfold m. rewrite firstn_all2 by lia. lia. }
+    rewrite Em in HS, HL. split; [destruct HS as [S1 S2 S3]; constructor; auto|]. split; [exact HL|exact Hinv].
+  - assert (Hi : (i < length (tops ns))%nat).
+    { assert (L : length (skipn i (tops ns)) = S (length R)) by (rewrite <- ERS; reflexivity). rewrite skipn_length in L. lia. }
+    assert (Ej : nth_error (tops ns) i = Some j).
+    { rewrite <- (firstn_skipn i (tops ns)), <- ERS. rewrite nth_error_app2 by (rewrite firstn_length_le; lia).
+      rewrite firstn_length_le by lia. rewrite Nat.sub_diag. reflexivity. }
+    assert (ER : R = skipn (S i) (tops ns)) by (eapply skipn_cons_tail; eauto).
+    assert (Hjn : (j < ns)%nat) by (apply tops_lt; eapply nth_error_In; eauto).
+    pose proof (cnt_true_firstn_S B i ltac:(lia)) as CS.
+    pose proof (cnt_true_le B i) as CL.
+    cbn [map D.start_loop]. unfold D.bits_of_list at 1.
+    destruct (nth i B false) eqn:Eb.
+    + (* an interior start configuration *)
+      destruct (SF i j Ej Eb) as (E0 & C0 & C1 & C2). fold m in E0, C0, C1, C2.
+      assert (Hm : (m < length Q)%nat) by (unfold m; pose proof (cnt_true_le B (S i)); lia).
+      assert (Hjm : (j < m)%nat) by (unfold m; lia).
+      assert (X1 : eco m 1 = next_c (eco m 0)) by reflexivity. assert (X2 : eco m 2 = prev_c (eco m 0)) by reflexivity.
+      destruct (Qrng m Hm) as [Hm0 _]. fold (eco m 0) in Hm0.
+      (* the two lookups *)
+      assert (Er2 : opp_at opp (next_c (eco m 2)) = Some (eco j 0)) by (rewrite X2, next_prev; exact E0).
+      destruct (fan_lmc_t m d (eco m 2) j 0%nat Hm HS HL HJ (eco_face m 2) (eco_rng m 2 Hm) C2 Hjm ltac:(lia) Er2)
+        as (jb & rb0 & Hjb & Hrb0 & E1 & V1).
+      rewrite X2, prev_prev, <- X1 in E1. cbn [Nat.modulo Nat.divmod Nat.add fst snd Nat.sub] in V1.
+      set (rl1 := ((rb0 + 1) mod 3)%nat) in *.
+      assert (Hrl1 : (rl1 < 3)%nat) by (apply Nat.mod_upper_bound; lia).
+      destruct (fan_lmc_t m d (eco m 0) jb rl1 Hm HS HL HJ (eco_face m 0) (eco_rng m 0 Hm) C0 Hjb Hrl1 E1)
+        as (jc & rc0 & Hjc & Hrc0 & E2 & V2).
+      rewrite <- X2 in E2.
+      set (rl2 := ((rc0 + 1) mod 3)%nat) in *.
+      assert (Hrl2 : (rl2 < 3)%nat) by (apply Nat.mod_upper_bound; lia).
+      (* distinct faces *)
+      assert (F01 : (eco j 0 / 3)%nat <> (eco jb rl1 / 3)%nat).
+      { apply (nbr_next_distinct c2v opp nf Hlen OK (eco m 0)); [exact E0|exact E1]. }
+      assert (F12 : (eco jb rl1 / 3)%nat <> (eco jc rl2 / 3)%nat).
+      { apply (nbr_next_distinct c2v opp nf Hlen OK (next_c (eco m 0))); [exact E1|rewrite next_next; exact E2]. }
+      assert (F20 : (eco jc rl2 / 3)%nat <> (eco j 0 / 3)%nat).
+      { apply (nbr_next_distinct c2v opp nf Hlen OK (prev_c (eco m 0))); [exact E2|rewrite next_prev; exact E0]. }
+      rewrite !eco_face in F01, F12, F20.
+      assert (Nj1 : j <> jb) by congruence. assert (Nj2 : jb <> jc) by congruence. assert (Nj3 : jc <> j) by congruence.
+      (* the three glued corners are free *)
+      assert (Free : forall j0 r0 rr, (j0 < m)%nat -> (r0 < 3)%nat -> opp_at opp (eco m rr) = Some (eco j0 r0) -> D.copp d (dco j0 r0) = -1).
+      { intros j0 r0 rr Hj0 Hr0 Eo. pose proof (s_opp _ _ HS j0 r0 Hj0 Hr0) as X. unfold s_opp_at in X.
+        destruct (opp_facts _ _ Eo) as (Eo' & _). rewrite Eo' in X. destruct X as [_ X]. apply X.
+        intros j' Hj' F. rewrite eco_face in F. apply Q_face_inj in F; lia. }
+      pose proof (s_nf _ _ HS) as Hnf.
+      assert (HW' : DP.W NC maxv (D.nfaces d) d) by (rewrite Hnf; auto).
+      assert (Ena : D.next_c (dco j 0) = dco j 1) by (rewrite dco_next by lia; reflexivity).
+      assert (Eb1 : D.next_c (dco jb rb0) = dco jb rl1) by (rewrite dco_next by lia; reflexivity).
+      assert (Eb2 : D.next_c (dco jc rc0) = dco jc rl2) by (rewrite dco_next by lia; reflexivity).
+      assert (Enb : D.next_c (dco jb rl1) = dco jb ((rl1 + 1) mod 3)) by (rewrite dco_next by lia; reflexivity).
+      destruct (dec_start_face NC maxv (Z.of_nat (length Q)) d (dco j 0) HW' HNC')
+        as (d' & Es & A1 & A2 & A3 & A4 & A5 & A6 & A7 & A8 & A9).
+      * rewrite Hnf. lia.
+      * rewrite Hnf. unfold dco. lia.
+      * rewrite Ena, V1, Hnf. unfold dco. lia.
+      * rewrite Ena, V1, Eb1, Enb, V2, Hnf. unfold dco. lia.
+      * rewrite Ena, V1, Eb1. unfold dco. lia.
+      * rewrite Ena, V1, Eb1, Enb, V2, Eb2. unfold dco. lia.
+      * rewrite Ena, V1, Eb1, Enb, V2, Eb2. unfold dco. lia.
+      * apply (Free j 0%nat 0%nat); auto.
+      * rewrite Ena, V1, Eb1. apply (Free jb rl1 1%nat); auto.
+      * rewrite Ena, V1, Eb1, Enb, V2, Eb2. apply (Free jc rl2 2%nat); auto.
+      * rewrite Ena, V1, Eb1, Enb, V2, Eb2 in A1, A2. rewrite Hnf in A1, A2, A9.
+        replace (3 * Z.of_nat m + 2) with (dco m 2) in A1, A2 by (unfold dco; lia).
+        replace (3 * Z.of_nat m + 1) with (dco m 1) in A1, A2 by (unfold dco; lia).
+        replace (3 * Z.of_nat m) with (dco m 0) in A1, A2 by (unfold dco; lia).
+        rewrite <- Enb, <- Ena in A2.
+        assert (HS' : SIM (S m) d').
+        { apply (SIM_start m d d' j jb rl1 jc rl2); auto. rewrite A9. lia. }
+        (* SwingLeft keeps the vertex *)
+        assert (Vn : 0 <= D.c2v d (dco j 1) < D.nv d) by (apply (DP.w_vr _ _ _ _ HW); unfold dco; lia).
+        assert (Vx : 0 <= D.c2v d (dco jb ((rl1 + 1) mod 3)) < D.nv d) by (apply (DP.w_vr _ _ _ _ HW); unfold dco; lia).
+        assert (HL' : LAB (S m) d').
+        { apply (LAB_start m d d' j jb rl1 jc rl2); auto.
+          - (* around the third vertex *)
+            destruct (fan_walk m d (eco m 1) ltac:(lia) HS HL) as (j1 & r1 & j2 & r2 & H1 & H2 & H3 & H4 & Esr & Esl & Ev); auto.
+            { rewrite X1. apply next_lt; auto. } { rewrite eco_face. apply (Qrng m Hm). }
+            unfold swing_right in Esr. rewrite X1, prev_next, E0 in Esr. inversion Esr as [Q1].
+            unfold swing_left in Esl. rewrite X1, next_next, <- X2, E2 in Esl. inversion Esl as [Q2].
+            assert (Q1' : eco j 2 = eco j1 r1) by exact Q1. apply eco_inj in Q1'; try lia. destruct Q1' as [<- <-].
+            assert (Q2' : eco jc ((rl2 + 1) mod 3) = eco j2 r2) by (rewrite eco_next by auto; exact Q2).
+            apply eco_inj in Q2'; try lia. destruct Q2' as [<- <-].
+            rewrite (dco_prev j 0), (dco_next jc rl2) by lia. exact Ev.
+          - replace (D.prev_c (dco jb rl1)) with (dco jb rb0) by (rewrite <- Eb1; symmetry; apply prev_next_dco).
+            rewrite <- V1. rewrite Ena. apply (DC.j_vc _ _ HJ); auto. rewrite V1. unfold dco. lia.
+          - replace (D.prev_c (dco jc rl2)) with (dco jc rc0) by (rewrite <- Eb2; symmetry; apply prev_next_dco).
+            rewrite <- V2. rewrite Enb. apply (DC.j_vc _ _ HJ); auto. rewrite V2. unfold dco. lia. }
+        destruct (DP.start_face_W NC maxv (Z.of_nat (length Q)) d (dco j 0) d' HNC' HW') as (HW2 & Nf2 & _); auto.
+        { rewrite Hnf. unfold dco. lia. }
+        pose proof (DC.start_face_FJ NC maxv (Z.of_nat (length Q)) d (dco j 0) d' HNC' HW') as HJ2.
+        rewrite Hnf in HJ2. specialize (HJ2 HJ ltac:(unfold dco; lia) Es).
+        rewrite Es. cbn [D.bind].
+        assert (Em' : (ns + cnt_true (firstn (S i) B) = S m)%nat) by (unfold m; rewrite CS; lia).
+        rewrite Nf2, Hnf in HW2. replace (Z.of_nat m + 1) with (Z.of_nat (S m)) in HW2 by lia.
+        rewrite Nf2, Hnf in HJ2. replace (Z.of_nat m + 1) with (Z.of_nat (S m)) in HJ2 by lia.
+        destruct (IH (S i) d' ER) as (d2 & E2' & R1 & R2 & R3);
+          [rewrite Em'; exact HS'|rewrite Em'; exact HW2|rewrite Em'; exact HJ2|rewrite Em'; exact HL'|congruence|].
+        exists d2. auto.
+    + (* a boundary start configuration: nothing is created *)
+      assert (Em' : (ns + cnt_true (firstn (S i) B) = m)%nat) by (unfold m; rewrite CS; lia).
+      destruct (IH (S i) (D.with_inits d ((false, dco j 0) :: D.inits d)) ER) as (d2 & E2' & R1 & R2 & R3);
+        [rewrite Em'; destruct HS as [S1 S2 S3]; constructor; auto|rewrite Em'; apply DP.W_with_inits; auto
+        |rewrite Em'; destruct HJ; constructor; auto|rewrite Em'; exact HL|exact Hinv|].
+      exists d2. auto.
+Qed.
+
+(** ** the decoder on a script without S and without split events (interior start faces allowed) *)
+Theorem dec_roundtrip_noS B :
+  (forall f, (f < nf)%nat -> is_degenerated c2v f = false -> In f (map (fun c => (c / 3)%nat) Q)) -> one_fan c2v opp ->
+  (forall j, (j < length Y)%nat -> script_at j) -> start_ok B ->
+  exists n s, D.eb_core NC maxv (Z.of_nat (length Q)) rm Y [] (D.bits_of_list B) = D.Ok (n, s) /\ eb_iso c2v opp Q (D.c2v s) (D.copp s).
+Proof.
+  intros Complete FAN Sc SO. destruct (sym_loop_sim (length Y) (le_n _) Sc) as (d & E & HS & HW & HF & Hnv & Hev & Hinv & Hst).
+  rewrite firstn_all in E. unfold D.eb_core. rewrite E. cbn [D.bind].
+  pose proof (DP.w_nv _ _ _ _ HW) as Hn. replace (D.nv d >? maxv) with false by lia.
+  destruct (start_loop_sim B SO HNC (tops (length Y)) 0%nat d eq_refl) as (s' & E' & A1 & A2 & A3); auto.
+  { cbn [firstn]. unfold cnt_true. cbn. rewrite Nat.add_0_r. auto. }
+  { cbn [firstn]. unfold cnt_true. cbn. rewrite Nat.add_0_r. auto. }
+  { cbn [firstn]. unfold cnt_true. cbn. rewrite Nat.add_0_r. apply DC.FI_FJ. auto. }
+  { cbn [firstn]. unfold cnt_true. cbn. rewrite Nat.add_0_r. apply FI_LAB. auto. }
+  rewrite Hst, E'. cbn [D.bind]. rewrite (s_nf _ _ A1), Z.eqb_refl. cbn [negb].
+  rewrite A3. cbn [rev D.compact D.bind fst snd]. eexists _, s'. split; [reflexivity|].
+  apply sim_iso_lab; auto.
 Qed.
 
 (** ** the decoder on a script without S, without split events, all start configurations on a boundary *)
